@@ -160,15 +160,24 @@ def check(P, R):
     R.require(len(reads) + helper_reads >= 3, f'{f.fq}: {len(reads)} stream reads found, at least 3 expected (size line, payload, terminator)')
 
     # ---- a: payload loop
-    loops = [n for n in walk_shallow(f.node) if isinstance(n, ast.While) and T.counter_of_while(n)]
+    loops = [n for n in walk_shallow(f.node) if isinstance(n, ast.While) and (T.counter_of_while(n) or T.countup_of_while(n))]
     loops = [l for l in loops if any(T.in_body_of(c, l) and T.loops_of(c)[0] is l for c in reads)]
     R.require(len(loops) == 1, f'{f.fq}: expected one `while remaining > 0` payload loop, found {len(loops)}')
     ploop = loops[0]
     counter = T.counter_of_while(ploop)
-    c04.check_bounded_read_loop(R, f, 'C05.', ploop, counter, buff_names={'buff_size'}, require_buffer_bound=True,
-                                eof_must='raise')
-    # counter derives from int(..., 16)
     hn = T.loop_head(g, ploop)
+    if counter is None:
+        # count-up formulation: `delivered = 0; while delivered < chunk_len: ... delivered += len(part)`
+        limit, recv_ = T.countup_of_while(ploop)
+        rdefs_ = [d for d in rd.at(hn, recv_) if d.kind != 'aug']
+        init_ok = bool(rdefs_) and all(d.kind == 'assign' and is_const(d.value, 0) for d in rdefs_)
+        R.ob('C05.a', f, ploop.test, init_ok, text=f'{recv_} starts at 0 for every chunk', detail='' if init_ok else f'the received-length counter {recv_} does not start at 0')
+        c04.check_bounded_read_loop(R, f, 'C05.', ploop, ('up', limit, recv_), buff_names={'buff_size'}, require_buffer_bound=True, eof_must='raise')
+        counter = limit
+    else:
+        c04.check_bounded_read_loop(R, f, 'C05.', ploop, counter, buff_names={'buff_size'}, require_buffer_bound=True,
+                                    eof_must='raise')
+    # counter derives from int(..., 16)
     defs = rd.root_defs(hn, counter, kinds=('assign', 'param', 'unpack', 'for', 'with', 'walrus'))
     okc = bool(defs) and all(isinstance(d.value, ast.Call) and dotted(d.value.func) == 'int' and len(d.value.args) == 2
                              and is_const(d.value.args[1], 16) for d in defs)
